@@ -220,6 +220,13 @@ def main(argv):
         c, m = sample_cases(rng, fails, formula, mass, envp, exposure, lists, [0.3])
         cases += c
         meta += m
+    # samples in which one daughter is reached by several routes whose rows carry different half-lives (Ba-137m, Sm-151,
+    # Sc-47, ...): the activity that reaches the target is the sum over the rows as tabulated, route by route
+    for formula, envp in (("Ba[136]Ba[137]", (1e8, 0.0, 10.0)), ("Nd9Sm", (1e8, 0.0, 0.0)), ("Sc[45]Ti", (1e8, 0.0, 50.0)),
+                          ("Al28Si", (1e8, 0.0, 50.0)))[: (2 if n <= 12 else 4)]:
+        c, m = sample_cases(rng, fails, formula, 1.0, envp, 10.0, [[0, 1, 24, 360]], [1e-9, 1e-6, 1e-3, 0.03, 0.3, 0.6])
+        cases += c
+        meta += m
     # histories on one Sample object: calculate, ask, calculate again under other conditions (same rest times), ask
     # again - the second answer is about the second calculation, i.e. what a fresh Sample gives
     for formula in rng.sample(["Co30Fe70", "Au", "Cu", "Mn", "Ti", "Al2O3", "Ag"], 3 if n <= 12 else 7):
